@@ -114,6 +114,12 @@ func main() {
 		dumpParams(e)
 		return
 	}
+	if *dump == "skips" {
+		dumpSkips(e)
+		dumpGuards(e)
+		dumpArgs(e)
+		return
+	}
 	if *dump == "atoms" {
 		dumpAtoms(e)
 		return
@@ -147,6 +153,9 @@ func main() {
 				fmt.Printf("[%s] %s\n    %s\n", o.Status, o.Key(), o.Msg)
 				for _, w := range o.Witness {
 					fmt.Println("      witness:", w)
+				}
+				for _, w := range o.Fingerprint {
+					fmt.Println("      lost at:", w)
 				}
 				if len(o.Pos) > 0 {
 					fmt.Println("      at:", strings.Join(o.Pos, " "))
